@@ -120,10 +120,11 @@ func (s *slState) dump() string {
 	if s.b.capKnown {
 		cb = "cap(b)"
 	}
-	return fmt.Sprintf("sd@G@(a, %s)\n\t\tsd@G@(b, %s)", ca, cb)
+	return fmt.Sprintf("sd@G@(%s, a)\n\t\tsd@G@(%s, b)", ca, cb)
 }
 
-const sliceDecls = `func sd@G@(s []int32, c int) {
+// the slice is not the first parameter: the WaGo parser takes `f(s []T` for a generic instantiation (see func|parameter|first parameter of slice type)
+const sliceDecls = `func sd@G@(c int, s []int32) {
 	e := int64(0)
 	for _, v := range s {
 		e = e*100 + int64(v)
@@ -200,25 +201,25 @@ func FamDataSlice(thorough bool) Family {
 		for hi := lo; hi <= 3; hi++ {
 			for mx := hi; mx <= 4; mx++ {
 				items = append(items, Item{Key: "slice|three-index", Desc: fmt.Sprintf("s[%d:%d:%d] of make(4,6)", lo, hi, mx),
-					Stmts: fmt.Sprintf("\t\ts := make([]int32, 4, 6)\n\t\tfor i := range s {\n\t\t\ts[i] = int32(i + 1)\n\t\t}\n\t\tt := s[%d:%d:%d]\n\t\tsd@G@(t, cap(t))\n\t\tt = append(t, 9)\n\t\tsd@G@(t, -1)\n\t\tsd@G@(s, cap(s))", lo, hi, mx)})
+					Stmts: fmt.Sprintf("\t\ts := make([]int32, 4, 6)\n\t\tfor i := range s {\n\t\t\ts[i] = int32(i + 1)\n\t\t}\n\t\tt := s[%d:%d:%d]\n\t\tsd@G@(cap(t), t)\n\t\tt = append(t, 9)\n\t\tsd@G@(-1, t)\n\t\tsd@G@(cap(s), s)", lo, hi, mx)})
 			}
 		}
 	}
 	for lo := 0; lo <= 3; lo++ {
 		for hi := lo; hi <= 3; hi++ {
 			items = append(items, Item{Key: "slice|of-array", Desc: fmt.Sprintf("arr[%d:%d] of [3]int32", lo, hi),
-				Stmts: fmt.Sprintf("\t\tarr := [3]int32{1, 2, 3}\n\t\tt := arr[%d:%d]\n\t\tsd@G@(t, cap(t))\n\t\tif len(t) > 0 {\n\t\t\tt[0] = 50\n\t\t}\n\t\tprintln(arr[0], arr[1], arr[2])\n\t\tp := &arr\n\t\tu := p[%d:]\n\t\tsd@G@(u, cap(u))", lo, hi, lo)})
+				Stmts: fmt.Sprintf("\t\tarr := [3]int32{1, 2, 3}\n\t\tt := arr[%d:%d]\n\t\tsd@G@(cap(t), t)\n\t\tif len(t) > 0 {\n\t\t\tt[0] = 50\n\t\t}\n\t\tprintln(arr[0], arr[1], arr[2])\n\t\tp := &arr\n\t\tu := p[%d:]\n\t\tsd@G@(cap(u), u)", lo, hi, lo)})
 		}
 	}
 	items = append(items,
-		Item{Key: "slice|literal-and-zero", Desc: "literals, nil, empty", Stmts: "\t\tvar z []int32\n\t\te := []int32{}\n\t\tm := make([]int32, 0)\n\t\tsd@G@(z, cap(z))\n\t\tsd@G@(e, cap(e))\n\t\tsd@G@(m, cap(m))\n\t\tl := []int32{3: 7, 1: 2}\n\t\tsd@G@(l, cap(l))\n\t\tsd@G@(z[0:0], 0)\n\t\tprintln(len(z[:]), z[:] == nil)"},
-		Item{Key: "slice|append-slice-spread", Desc: "append(a, b...)", Stmts: "\t\ta := make([]int32, 1, 8)\n\t\ta[0] = 1\n\t\tb := []int32{2, 3}\n\t\ta = append(a, b...)\n\t\ta = append(a, a...)\n\t\tsd@G@(a, cap(a))\n\t\tvar n []int32\n\t\ta = append(a, n...)\n\t\tn = append(n, n...)\n\t\tsd@G@(a, cap(a))\n\t\tprintln(n == nil)"},
-		Item{Key: "slice|append-self-overlap", Desc: "append(a[:1], a[1:]...) and copy overlap", Stmts: "\t\ta := make([]int32, 4, 8)\n\t\tfor i := range a {\n\t\t\ta[i] = int32(i + 1)\n\t\t}\n\t\tb := append(a[:1], a[2:]...)\n\t\tsd@G@(b, cap(b))\n\t\tsd@G@(a, cap(a))\n\t\tprintln(copy(a[1:], a))\n\t\tsd@G@(a, cap(a))\n\t\tprintln(copy(a, a[2:]))\n\t\tsd@G@(a, cap(a))"},
+		Item{Key: "slice|literal-and-zero", Desc: "literals, nil, empty", Stmts: "\t\tvar z []int32\n\t\te := []int32{}\n\t\tm := make([]int32, 0)\n\t\tsd@G@(cap(z), z)\n\t\tsd@G@(cap(e), e)\n\t\tsd@G@(cap(m), m)\n\t\tl := []int32{3: 7, 1: 2}\n\t\tsd@G@(cap(l), l)\n\t\tsd@G@(0, z[0:0])\n\t\tprintln(len(z[:]), z[:] == nil)"},
+		Item{Key: "slice|append-slice-spread", Desc: "append(a, b...)", Stmts: "\t\ta := make([]int32, 1, 8)\n\t\ta[0] = 1\n\t\tb := []int32{2, 3}\n\t\ta = append(a, b...)\n\t\ta = append(a, a...)\n\t\tsd@G@(cap(a), a)\n\t\tvar n []int32\n\t\ta = append(a, n...)\n\t\tn = append(n, n...)\n\t\tsd@G@(cap(a), a)\n\t\tprintln(n == nil)"},
+		Item{Key: "slice|append-self-overlap", Desc: "append(a[:1], a[1:]...) and copy overlap", Stmts: "\t\ta := make([]int32, 4, 8)\n\t\tfor i := range a {\n\t\t\ta[i] = int32(i + 1)\n\t\t}\n\t\tb := append(a[:1], a[2:]...)\n\t\tsd@G@(cap(b), b)\n\t\tsd@G@(cap(a), a)\n\t\tprintln(copy(a[1:], a))\n\t\tsd@G@(cap(a), a)\n\t\tprintln(copy(a, a[2:]))\n\t\tsd@G@(cap(a), a)"},
 		Item{Key: "slice|of-slices", Desc: "[][]int32 rows alias", Stmts: "\t\tg := make([][]int32, 2)\n\t\tg[0] = make([]int32, 2, 2)\n\t\tg[1] = g[0]\n\t\tg[1][0] = 5\n\t\tprintln(g[0][0], len(g), len(g[1]))\n\t\tg[0] = append(g[0], 6)\n\t\tg[0][0] = 7\n\t\tprintln(g[1][0], g[0][0], len(g[0]), len(g[1]))\n\t\tg = append(g, nil)\n\t\tprintln(len(g), g[2] == nil)"},
-		Item{Key: "slice|passed-to-function", Desc: "callee stores and appends", Stmts: "\t\ta := make([]int32, 2, 4)\n\t\tsf@G@(a)\n\t\tsd@G@(a, cap(a))\n\t\tsd@G@(a[:3], 4)\n\t\tb := make([]int32, 2, 2)\n\t\tsf@G@(b)\n\t\tsd@G@(b, cap(b))"},
+		Item{Key: "slice|passed-to-function", Desc: "callee stores and appends", Stmts: "\t\ta := make([]int32, 2, 4)\n\t\tsf@G@(8, a)\n\t\tsd@G@(cap(a), a)\n\t\tsd@G@(4, a[:3])\n\t\tb := make([]int32, 2, 2)\n\t\tsf@G@(8, b)\n\t\tsd@G@(cap(b), b)"},
 		Item{Key: "slice|of-strings-and-structs", Desc: "element types other than int32", Stmts: "\t\tss := make([]string, 1, 3)\n\t\tss[0] = \"a\"\n\t\tt := append(ss, \"b\")\n\t\tu := append(ss, \"c\")\n\t\tprintln(t[1], u[1], len(ss))\n\t\tps := []sp@G@{{1, \"x\"}}\n\t\tqs := append(ps, sp@G@{2, \"y\"})\n\t\tqs[0].n = 9\n\t\tprintln(ps[0].n, qs[0].n, qs[1].s, len(qs))\n\t\tcopy(qs, qs[1:])\n\t\tprintln(qs[0].n, qs[0].s)"},
 		Item{Key: "slice|bytes", Desc: "[]uint8 append/copy/index", Stmts: "\t\tb := make([]uint8, 0, 4)\n\t\tb = append(b, 250, 251)\n\t\tb = append(b, \"hi\"...)\n\t\tc := b[1:3]\n\t\tc[0]++\n\t\tprintln(len(b), int64(b[1]), int64(b[2]), int64(b[0]+10))\n\t\tprintln(copy(b, \"xyz\"), int64(b[0]), int64(b[3]))"},
 	)
-	f.Groups = append(f.Groups, Group{Name: "slice forms", Decls: sliceDecls + "type sp@G@ struct {\n\tn int32\n\ts string\n}\n\nfunc sf@G@(s []int32) {\n\ts[0] = 8\n\ts = append(s, 9)\n\ts[1] = 7\n}\n", Items: items})
+	f.Groups = append(f.Groups, Group{Name: "slice forms", Decls: sliceDecls + "type sp@G@ struct {\n\tn int32\n\ts string\n}\n\nfunc sf@G@(k int32, s []int32) {\n\ts[0] = k\n\ts = append(s, 9)\n\ts[1] = 7\n}\n", Items: items})
 	return f
 }
